@@ -53,7 +53,7 @@ def main():
     n_conc = len([r for r in rows if r[3] == "concrete input"])
     nfi = sorted(r[0] for r in rows if r[3] == "no-failing-input-found")
     missed = sorted(r[0] for r in rows if r[3] not in ("concrete input", "no-failing-input-found"))
-    out.append("\nThe seeds were written in three rounds (x-1/x-2, x-3/x-4, x-5/x-6), each round's authors being told what the earlier "
+    out.append("\nThe seeds were written in four rounds (x-1/x-2, x-3/x-4, x-5/x-6, x-7/x-8), each round's authors being told what the earlier "
                "rounds had changed. After every round the seeds a check missed, or reported without an input, were used to strengthen "
                "that check's generators and oracle (never its verdict rule), and the whole sweep was repeated. On the last sweep "
                "%d of %d seeded changes make their property's quick check exit 1; %d are reported with a concrete failing input on the "
